@@ -144,9 +144,9 @@ package types
 //@   unfold wfT(x)
 //@   unfold wfT(y)
 //@   modifies m[*], inProcess[*]
-//@   loop 1 invariant wfSubst(m) && len(ks) == len(xtv) && len(xtv) == len(ytv) && isfresh(ks) && forall(j, 0, rangeindex+1, wfT(ks[j]) && allocated(ks[j]))
-//@   loop 2 invariant wfSubst(m) && len(fs) == len(xfs) && isfresh(fs) && forall(j, 0, rangeindex+1, wfT(fs[j].Val) && allocated(fs[j].Val) && fs[j].Name == xfs[j].Name)
-//@   loop 3 invariant wfSubst(m) && len(params) == len(xf.Param) && len(xf.Param) == len(yf.Param) && isfresh(params) && forall(j, 0, rangeindex+1, wfT(params[j]) && allocated(params[j]))
+//@   loop 1 invariant wfSubst(m) && len(ks) == len(x.Tuple().Val) && len(x.Tuple().Val) == len(y.Tuple().Val) && isfresh(ks) && forall(j, 0, rangeindex+1, wfT(ks[j]) && allocated(ks[j]))
+//@   loop 2 invariant wfSubst(m) && len(fs) == len(x.Obj().Fields) && isfresh(fs) && forall(j, 0, rangeindex+1, wfT(fs[j].Val) && allocated(fs[j].Val) && fs[j].Name == x.Obj().Fields[j].Name)
+//@   loop 3 invariant wfSubst(m) && len(params) == len(x.Fun().Param) && len(x.Fun().Param) == len(y.Fun().Param) && isfresh(params) && forall(j, 0, rangeindex+1, wfT(params[j]) && allocated(params[j]))
 //@   unfold @return wfT(result)
 //@   ensures #subst wfSubst(m)
 //@   ensures #result result != nil ==> wfT(result)
